@@ -12,7 +12,7 @@ import z3
 I = z3.IntSort()
 B = z3.BoolSort()
 R = z3.RealSort()
-S = z3.StringSort()
+STR = z3.StringSort()
 IntArr = z3.ArraySort(I, I)
 
 _counter = itertools.count()
@@ -269,7 +269,7 @@ class _TReal(TypeDesc):
 
 
 class _TStr(TypeDesc):
-	sort = S
+	sort = STR
 
 	def wrap(self, term):
 		return SStr(term)
@@ -406,25 +406,19 @@ class SOpt(SV):
 
 class TSeq(TypeDesc):
 	"""Sequences (lists/tuples of symbolic length) of T, as a datatype (arr, len) so that they can
-	nest and be fields."""
-	_cache = {}
-
-	def __new__(cls, T):
-		key = repr(T)
-		if key in cls._cache:
-			return cls._cache[key]
-		o = super().__new__(cls)
-		cls._cache[key] = o
-		return o
+	nest and be fields.  The z3 sort is shared by all descriptors with the same element sort; the
+	descriptor itself is not (record element types carry per-call constants)."""
+	_sorts = {}
 
 	def __init__(self, T):
-		if hasattr(self, 'T'):
-			return
 		self.T = T
-		self.arrsort = z3.ArraySort(I, T.sort)
-		dt = z3.Datatype(f'Seq_{T!r}')
-		dt.declare('mk', ('arr', self.arrsort), ('len', I))
-		self.sort = dt.create()
+		key = repr(T)
+		if key not in TSeq._sorts:
+			arrsort = z3.ArraySort(I, T.sort)
+			dt = z3.Datatype(f'Seq_{T!r}')
+			dt.declare('mk', ('arr', arrsort), ('len', I))
+			TSeq._sorts[key] = (arrsort, dt.create())
+		self.arrsort, self.sort = TSeq._sorts[key]
 
 	def wrap(self, term):
 		return SSeq(self.T, self.sort.arr(term), self.sort.len(term))
@@ -461,7 +455,7 @@ class SSeq(SV):
 
 	@staticmethod
 	def empty(T):
-		return SSeq(T, z3.K(I, T.unwrap(T.fresh('dflt')) if not isinstance(T, (_TInt,)) else z3.IntVal(0)), 0)
+		return SSeq(T, z3.Const(fresh_name('empty'), z3.ArraySort(I, T.sort)), 0)
 
 
 class TArr(TypeDesc):
@@ -505,6 +499,13 @@ class SSet(SV):
 	@staticmethod
 	def empty():
 		return SSet(z3.K(I, z3.BoolVal(False)))
+
+
+class EmptySet:
+	"""set() before its element type is known"""
+
+	def fresh_like(self, name):
+		raise TypeError('element type of an empty set is unknown; declare it in the invariant')
 
 
 class SSlice:
@@ -568,3 +569,56 @@ def to_term(v):
 
 def is_sym(v):
 	return isinstance(v, SV)
+
+
+class TRec(TypeDesc):
+	"""Immutable symbolic record: symbolic fields packed in a z3 datatype, constant fields shared by
+	all values of the type (e.g. every KmerMatch yielded by one find_kmers call has the same
+	kmerspec and seq)."""
+	_dts = {}
+
+	def __init__(self, name, pyclass, fields, consts=None):
+		self.name, self.pyclass = name, pyclass
+		self.fields = dict(fields)          # fname -> TypeDesc
+		self.consts = dict(consts or {})    # fname -> value
+		key = (name, tuple((k, repr(v)) for k, v in self.fields.items()))
+		if key not in TRec._dts:
+			dt = z3.Datatype(f'Rec_{name}')
+			dt.declare('mk', *[(f, T.sort) for f, T in self.fields.items()])
+			TRec._dts[key] = dt.create()
+		self.sort = TRec._dts[key]
+
+	def wrap(self, term):
+		return SRec(self, term)
+
+	def unwrap(self, v):
+		if isinstance(v, SRec):
+			return v.term
+		raise TypeError(f'not a {self.name}: {v!r}')
+
+	def make_term(self, fieldvals):
+		return self.sort.mk(*[T.unwrap(fieldvals[f]) for f, T in self.fields.items()])
+
+	def __repr__(self):
+		return f'Rec[{self.name}]'
+
+
+class SRec(SV):
+	def __init__(self, T, term):
+		self.T, self.term = T, term
+
+	def getattr(self, f):
+		if f in self.T.fields:
+			return self.T.fields[f].wrap(getattr(self.T.sort, f)(self.term))
+		if f in self.T.consts:
+			return self.T.consts[f]
+		raise KeyError(f)
+
+	def has(self, f):
+		return f in self.T.fields or f in self.T.consts
+
+	def fresh_like(self, name):
+		return SRec(self.T, z3.Const(fresh_name(name), self.T.sort))
+
+	def __repr__(self):
+		return f'SRec({self.T.name}:{self.term})'
